@@ -103,6 +103,7 @@ class Case final : public sim::CaseBase {
 
   template <typename P>
   void Fulfil(P p, Item& it) {
+    sim::RaceWrite(&payload[&it - items.data()], sizeof(std::uint32_t));
     payload[&it - items.data()] = it.id;  // plain write published by the fulfilment (C04 race build)
     it.set_invoke = sim::Seq();
     if (it.outcome == 1) {
@@ -205,6 +206,7 @@ class Case final : public sim::CaseBase {
     auto record = [&](const Outcome& o) {
       it.later_got = o;
       it.later_have = true;
+      sim::RaceRead(&payload[i], sizeof(std::uint32_t));
       if (payload[i] != it.id) {
         sim::Fail("STALE_PAYLOAD", "future %zu: the producer's plain write before fulfilling is not visible after observing the result", i);
       }
@@ -311,6 +313,9 @@ class Case final : public sim::CaseBase {
       items[i].ready_at_return = ReadyOf(i);
       items[i].ready_seen_at = sim::Seq();
       all_ready = all_ready && items[i].ready_at_return;
+      if (items[i].ready_at_return) {
+        sim::RaceRead(&payload[i], sizeof(std::uint32_t));
+      }
       if (items[i].ready_at_return && payload[i] != items[i].id) {
         sim::Fail("STALE_PAYLOAD", "future %zu is Ready when the wait returns, but its producer's earlier plain write is not visible", i);
       }
